@@ -15,7 +15,7 @@ RULE = ("Exhaustive call sequences over 15 wrapper operations (accept, accept(su
         "(thorough <=5) x every server script (connect; 0-3 frames text/bytes/both-keys; disconnect at every position or never), plus "
         "length 5 (thorough 6) over a sample of scripts; plus every sequence of length <=3 (thorough 4) with each adjacent pair overlapped (call i suspended inside "
         "the server's send() while call i+1 runs to completion - two tasks sharing the socket). Non-trivial = sequence containing an accept or close and >=2 calls; distinct by construction.")
-RULE += " Also: empty text / binary frames, the websocket_session shortcut, a pending receive cancelled on a real event loop, the server's send() failing for the n-th forwarded event, `async for` over iter_text / iter_bytes left early and reading continued by another call (event loop; at most one server receive outstanding); 2-5 tasks waiting in a receive variant of one socket at once (each frame returned to exactly one of them, per-task arrival order). Empty frames are also SENT (the third call of every sequence)."
+RULE += " Also: empty text / binary frames, the websocket_session shortcut, a pending receive cancelled on a real event loop, the server's send() failing for the n-th forwarded event, `async for` over iter_text / iter_bytes left early and reading continued by another call (event loop; at most one server receive outstanding); 2-5 tasks waiting in a receive variant of one socket at once (each frame returned to exactly one of them, per-task arrival order). Empty frames are also SENT (the third call of every sequence). accept() / receive() cancelled while waiting for the connect event and tried again; close() from 2-3 tasks at once; two connections alive at the same time with alternating calls (each as alone)."
 ASSUMPTIONS = [
     "a typed receive that meets a frame of the other type (or the connect event) has an unspecified outcome (KeyError/None tolerated); the event counts as consumed",
     "a call that would wait for a server event that never comes ends the scenario (the coroutine is suspended, nothing is judged after it)",
@@ -550,6 +550,199 @@ def cancelled_receive(ctx, variant, how, nframes, disconnect):
         ctx.violation("cancelled-receive|orphan-task-left-pending", case, str(out["pending"]))
 
 
+def _mini(coro_fn):
+    """run one coroutine function on a fresh virtual loop -> its result (exceptions pass)"""
+    import asyncio
+
+    from vf import drivers
+    lp = drivers.VLoop(max_iterations=100_000)
+    try:
+        return lp.run_until_complete(asyncio.wait_for(coro_fn(), 1000))
+    finally:
+        try:
+            for t in asyncio.all_tasks(lp):
+                t.cancel()
+        except Exception:
+            pass
+        lp.close()
+
+
+def cancelled_while_connecting(ctx, first, how):
+    """accept() (or a raw receive()) that waits for the client's connect event is cancelled / times out; the application tries again
+    when the event has arrived: the connection is accepted and its frames come through"""
+    import asyncio
+
+    from baize import asgi
+    out = {}
+
+    async def main():
+        q = asyncio.Queue()
+        forwarded = []
+
+        async def receive():
+            return await q.get()
+
+        async def send(m):
+            forwarded.append(m)
+        ws = asgi.WebSocket({"type": "websocket", "headers": [], "path": "/", "query_string": b""}, receive, send)
+        call = ws.accept if first == "accept" else ws.receive
+        if how == "cancel":
+            t = asyncio.ensure_future(call())
+            for _ in range(3):
+                await asyncio.sleep(0)
+            t.cancel()
+            await asyncio.gather(t, return_exceptions=True)
+        else:
+            try:
+                await asyncio.wait_for(call(), 1.0)
+            except asyncio.TimeoutError:
+                pass
+        out["state_after_cancel"] = ws.client_state.name
+        out["forwarded_after_cancel"] = list(forwarded)
+        await q.put({"type": "websocket.connect"})
+        await q.put({"type": "websocket.receive", "text": "f0"})
+        await q.put({"type": "websocket.disconnect", "code": 1000})
+        try:
+            await asyncio.wait_for(ws.accept(), 5.0)
+            out["accept"] = "ok"
+        except BaseException as e:  # noqa
+            out["accept"] = type(e).__name__
+            return
+        out["frame"] = await asyncio.wait_for(ws.receive_text(), 5.0)
+        out["forwarded"] = [m.get("type") for m in forwarded]
+    case = {"scenario": "waiting for connect is cancelled, then tried again", "first_call": first, "how": how}
+    ctx.mon("cancelled-while-connecting")
+    try:
+        _mini(main)
+    except BaseException as e:  # noqa
+        if isinstance(e, (KeyboardInterrupt, SystemExit)):
+            raise
+        ctx.violation(f"cancelled-while-connecting|{type(e).__name__}", case, repr(e)[:200] + " " + repr(out))
+        return
+    if out.get("forwarded_after_cancel"):
+        ctx.violation("cancelled-while-connecting|forwarded-before-connect", case, repr(out))
+    elif out.get("accept") != "ok" or out.get("frame") != "f0" or out.get("forwarded") != ["websocket.accept"]:
+        ctx.violation("cancelled-while-connecting|second-attempt-fails", case, repr(out))
+
+
+def overlapped_closes(ctx, when, n):
+    """close() called by several tasks at once (a reader task and a writer task both giving up): one close event, no error"""
+    import asyncio
+
+    from baize import asgi
+    out = {}
+
+    async def main():
+        q = asyncio.Queue()
+        forwarded = []
+
+        async def receive():
+            return await q.get()
+
+        async def send(m):
+            forwarded.append(m)
+            await asyncio.sleep(0)
+        ws = asgi.WebSocket({"type": "websocket", "headers": [], "path": "/", "query_string": b""}, receive, send)
+        await q.put({"type": "websocket.connect"})
+        if when == "connected":
+            await ws.accept()
+        res = await asyncio.gather(*[ws.close(1000 + i) for i in range(n)], return_exceptions=True)
+        out["results"] = [type(r).__name__ if isinstance(r, BaseException) else r for r in res]
+        out["forwarded"] = [m.get("type") for m in forwarded]
+        out["state"] = ws.application_state.name
+    case = {"scenario": "close() from several tasks at once", "state": when, "tasks": n}
+    ctx.mon("overlapped-closes")
+    try:
+        _mini(main)
+    except BaseException as e:  # noqa
+        if isinstance(e, (KeyboardInterrupt, SystemExit)):
+            raise
+        ctx.violation(f"overlapped-closes|{type(e).__name__}", case, repr(e)[:200])
+        return
+    want = (["websocket.accept"] if when == "connected" else []) + ["websocket.close"]
+    if any(r is not None for r in out["results"]):
+        ctx.violation("overlapped-closes|close-not-idempotent", case, repr(out))
+    elif out["forwarded"] != want or out["state"] != "DISCONNECTED":
+        ctx.violation("overlapped-closes|events-forwarded-wrong", case, repr(out))
+
+
+TWO_SEQS = [("accept", "send_text", "close"), ("send_text", "accept", "send_text"), ("close", "send_text"), ("accept", "receive_text", "send_bytes", "close"),
+            ("accept",), ("accept", "close", "close", "send_text")]
+
+
+def two_connections(ctx, ia, ib):
+    """two connections are alive at the same time, their calls alternate: each behaves as it does alone"""
+    import asyncio
+
+    from baize import asgi
+
+    def make():
+        q = asyncio.Queue()
+        forwarded = []
+
+        async def receive():
+            return await q.get()
+
+        async def send(m):
+            forwarded.append(dict(m))
+        ws = asgi.WebSocket({"type": "websocket", "headers": [], "path": "/", "query_string": b""}, receive, send)
+        for m in ({"type": "websocket.connect"}, {"type": "websocket.receive", "text": "in"}, {"type": "websocket.disconnect", "code": 1000}):
+            q.put_nowait(m)
+        return ws, forwarded
+
+    async def one(ws, forwarded, call, tag, log):
+        try:
+            if call == "accept":
+                r = await ws.accept()
+            elif call == "send_text":
+                r = await ws.send_text(tag)
+            elif call == "send_bytes":
+                r = await ws.send_bytes(tag.encode())
+            elif call == "receive_text":
+                r = await ws.receive_text()
+            else:
+                r = await ws.close()
+        except BaseException as e:  # noqa
+            if isinstance(e, (KeyboardInterrupt, SystemExit)):
+                raise
+            r = "raised " + type(e).__name__
+        log.append((call, r, ws.client_state.name, ws.application_state.name, [m.get("type") for m in forwarded]))
+
+    async def alone(seq, tag):
+        ws, fw = make()
+        log = []
+        for c in seq:
+            await one(ws, fw, c, tag, log)
+        return log
+
+    async def together(sa, sb):
+        (wa, fa), (wb, fb) = make(), make()
+        la, lb = [], []
+        for i in range(max(len(sa), len(sb))):
+            if i < len(sa):
+                await one(wa, fa, sa[i], "A", la)
+            if i < len(sb):
+                await one(wb, fb, sb[i], "B", lb)
+        return la, lb
+    sa, sb = TWO_SEQS[ia], TWO_SEQS[ib]
+    case = {"scenario": "two connections alive at the same time, calls alternating", "calls_a": sa, "calls_b": sb}
+    ctx.mon("two-connections-alive")
+    try:
+        a0, b0 = _mini(lambda: alone(sa, "A")), _mini(lambda: alone(sb, "B"))
+        a1, b1 = _mini(lambda: together(sa, sb))
+    except BaseException as e:  # noqa
+        if isinstance(e, (KeyboardInterrupt, SystemExit)):
+            raise
+        ctx.violation(f"two-connections|{type(e).__name__}", case, repr(e)[:200])
+        return
+    for who, x0, x1 in (("a", a0, a1), ("b", b0, b1)):
+        if x0 != x1:
+            i = next(i for i in range(len(x0)) if x0[i] != x1[i])
+            ctx.violation("two-connections|one-connection-behaves-differently-while-another-is-alive", dict(case, connection=who),
+                          f"call {i} ({x0[i][0]}): alone {x0[i][1:]!r}; with the other connection alive {x1[i][1:]!r}")
+            return
+
+
 def concurrent_receivers(ctx, variant, ntasks, nframes, gaps):
     """several tasks share one socket and wait in a receive variant at the same time (a reader task next to a task that
     waits for one control frame): every frame the server hands over is returned to exactly one of them, each task sees
@@ -906,6 +1099,18 @@ def run(ctx):
                         cancelled_receive(ctx, variant, how, nframes, disconnect)
                         ctx.case_enum(True)
         ctx.sample("cancelled-receive", {"call": "receive_text", "how": "timeout", "frames": 3, "disconnect": True})
+        for first in ("accept", "receive"):
+            for how in ("cancel", "timeout"):
+                cancelled_while_connecting(ctx, first, how)
+                ctx.case_enum(True)
+        for when in ("connected", "connecting"):
+            for n in (2, 3):
+                overlapped_closes(ctx, when, n)
+                ctx.case_enum(True)
+        for ia in range(len(TWO_SEQS)):
+            for ib in range(len(TWO_SEQS)):
+                two_connections(ctx, ia, ib)
+                ctx.case_enum(True)
         for variant in ("receive", "receive_text", "receive_bytes"):
             for ntasks in (2, 3, 5):
                 for nframes in (1, 4, 13):
@@ -932,12 +1137,28 @@ def run(ctx):
         ctx.mon("denial-response", 0)
         ctx.mon("websocket_session", 0)
         ctx.mon("cancelled-receive", 0)
+        ctx.mon("cancelled-while-connecting", 0)
+        ctx.mon("overlapped-closes", 0)
+        ctx.mon("two-connections-alive", 0)
         ctx.mon("concurrent-receivers", 0)
         ctx.mon("iterator-early-exit", 0)
         ctx.mon("large-frames", 0)
 
 
 def replay(ctx, case):
+    sc = case.get("scenario", "")
+    if sc.startswith("waiting for connect is cancelled"):
+        cancelled_while_connecting(ctx, case["first_call"], case["how"])
+        ctx.case(1)
+        return
+    if sc.startswith("close() from several tasks"):
+        overlapped_closes(ctx, case["state"], case["tasks"])
+        ctx.case(1)
+        return
+    if sc.startswith("two connections alive"):
+        two_connections(ctx, TWO_SEQS.index(tuple(case["calls_a"])), TWO_SEQS.index(tuple(case["calls_b"])))
+        ctx.case(1)
+        return
     if case.get("scenario", "").startswith("pending receive cancelled"):
         cancelled_receive(ctx, case["call"], case["how"], case["frames"], case["disconnect"])
         ctx.case(1)
